@@ -50,6 +50,10 @@ def run_real(case: str) -> str:
     if run is None:
         return "invalid"
     out = []
+    if run.churn is not None:
+        idents, traces = run.churn
+        own = {str(m.identifier) for m in run.metrics.values()}
+        out.append(f"C{mc.churn_of(case)}/{len(set(idents))}/{len(set(traces))}/{len(own & set(idents))}")
     last = int(run.desync.split("@")[1]) if run.desync else len(run.evs) + 1
     for k in range(last):
         for n in run.notes.get(k, []):
@@ -154,6 +158,13 @@ def monitor(case: str, out: str) -> list[str]:
     idents = [v[1] for v in ids.values()]
     if len(set(idents)) != len(idents):
         fails.add("logs.identifier-not-unique")
+    for tok in out.split():
+        if tok.startswith("C") and tok.count("/") == 3 and tok[1:].split("/")[0].isdigit():
+            n, d_id, d_tr, overlap = tok[1:].split("/")
+            if d_id != n or overlap != "0":
+                fails.add("logs.identifier-not-unique")      # over time: a scope that is gone still owns its identifier
+            if d_tr != n:
+                fails.add("logs.trace-not-fresh")
 
     for k, ev in enumerate(evs):
         if ev.kind != "log" or k >= limit:
@@ -224,6 +235,9 @@ def corpus():
         "0:o:d:s:only:: 0:x 0:l:w:0:after_%s:sx 0:o:s:s:n2:: 0:l:i:0:%d:i3 0:x 0:e",
         # the scope's task is cancelled while its exit waits for a member; the parent task goes on logging
         "0:o:a:s:outer::tr1 0:c 1:o:a:a:w:0: 1:s 2:l:i:0:m: 1:x 1:k 0:l:i:0:after_%d:i1 0:x 0:e",
+        # uniqueness over time: hundreds of short-lived outermost scopes before the program proper
+        "churn=400 0:o:a:s:svc:: 0:l:i:0:plain: 0:o:s:s:in:: 0:l:i:0:hello_%s:sw 0:x 0:x 0:e",
+        "churn=1500 0:o:s:s:a:: 0:x 0:o:s:s:b:: 0:l:w:0:%d:i3 0:x 0:e",
     ]
     return [mc.normalize(c) for c in cs]
 
@@ -263,10 +277,10 @@ def sample(rng) -> str | None:
 
 def generate(rng, tier):
     n = 6000 if tier == "quick" else 16 * 5000
-    for _ in range(n):
+    for i in range(n):
         c = sample(rng)
         if c:
-            yield c
+            yield f"churn={rng.choice([150, 300, 600])} {c}" if i % 200 == 7 else c
 
 
 def nontrivial(case: str, out: str) -> bool:
